@@ -724,6 +724,152 @@ fn int_ops<const N: usize>(v: &mut Vec<Op>) {
     op!(v, "int-shift", nm("sh*_vartime(public shift)"), [Arg::Signed(N)], [Arg::UpTo(2 * b + 1)], shift_vt::<N>);
 }
 
+/// branch-free lower-case hex of little-endian words, most significant digit first (big-endian text)
+#[inline(always)]
+fn hex_be(words: &[u64], out: &mut [u8]) {
+    let n = words.len();
+    for k in 0..n {
+        let w = words[n - 1 - k];
+        for d in 0..16 {
+            let nib = ((w >> (60 - 4 * d)) & 15) as u8;
+            // 0..=9 -> '0'.., 10..=15 -> 'a'..
+            let adj = (((9i16 - nib as i16) >> 15) as u8) & 39;
+            out[16 * k + d] = 48 + nib + adj;
+        }
+    }
+}
+
+fn uint_ops_extra<const N: usize>(v: &mut Vec<Op>) {
+    let nm = |s: &str| format!("uint/{s}/U{}", 64 * N);
+    #[inline(never)]
+    fn named_bits<const N: usize>(i: &Inputs) {
+        let (a, b) = (u::<N>(&i.s[0]), u::<N>(&i.s[1]));
+        sink((a.bitand(&b), a.bitor(&b), a.bitxor(&b), a.not()));
+        sink((a.wrapping_and(&b), a.checked_and(&b), a.wrapping_or(&b), a.checked_or(&b), a.wrapping_xor(&b), a.checked_xor(&b)));
+        sink((Wrapping(a) & Wrapping(b), Wrapping(a) | Wrapping(b), Wrapping(a) ^ Wrapping(b), !Wrapping(a)));
+        sink((a.wrapping_square(), a.wrapping_sqrt(), a.as_int()));
+    }
+    op!(v, "uint-bits", nm("named bit ops+wrapping_square+wrapping_sqrt"), [Arg::Any(N), Arg::Any(N)], [], named_bits::<N>);
+
+    #[inline(never)]
+    fn hex<const N: usize>(i: &Inputs) {
+        let mut buf = [0u8; 16 * 32];
+        hex_be(&i.s[0][..N], &mut buf[..16 * N]);
+        // SAFETY-free: the buffer holds ASCII hex digits only
+        let text = core::str::from_utf8(&buf[..16 * N]).unwrap();
+        sink((Uint::<N>::from_be_hex(text), Uint::<N>::from_le_hex(text)));
+    }
+    op!(v, "uint-encoding", nm("from_be_hex+from_le_hex(secret digits)"), [Arg::Any(N)], [], hex::<N>);
+}
+
+// more of the Int surface: every non-vartime public item of src/int/* that `int_ops` leaves out
+fn int_ops_more<const N: usize>(v: &mut Vec<Op>) {
+    let nm = |s: &str| format!("int/{s}/I{}", 64 * N);
+
+    #[inline(never)]
+    fn mul_uint<const N: usize>(i: &Inputs) {
+        let (a, b) = (si::<N>(&i.s[0]), u::<N>(&i.s[1]));
+        sink((a.split_mul_uint(&b), a.split_mul_uint_right(&b), a.checked_mul_uint_right(&b), CheckedMul::<Uint<N>>::checked_mul(&a, &b)));
+    }
+    op!(v, "int-arith", nm("mul_uint forms"), [Arg::Signed(N), Arg::Any(N)], [], mul_uint::<N>);
+
+    #[inline(never)]
+    fn div_more<const N: usize>(i: &Inputs) {
+        let (a, b) = (si::<N>(&i.s[0]), si::<N>(&i.s[1]));
+        let d = NonZero::new(b).unwrap();
+        sink((a.checked_div(&b), a.checked_div_floor(&b), crypto_bigint::CheckedDiv::checked_div(&a, &b)));
+        // `Int / NonZero<Int>` and `Wrapping<Int> / NonZero<Int>` panic for MIN / -1 (stated in their
+        // expect messages; C14 accepts it): a value-dependent panic by contract, not registered here
+        sink((a % d, &a % &d, Wrapping(a) % d));
+    }
+    op!(v, "int-div", nm("checked_div+checked_div_floor+Rem operators(secret divisor)"), [Arg::Signed(N), Arg::SignedNonZero(N)], [], div_more::<N>);
+
+    #[inline(never)]
+    fn div_uint_more<const N: usize>(i: &Inputs) {
+        let a = si::<N>(&i.s[0]);
+        let d = NonZero::new(u::<N>(&i.s[1])).unwrap();
+        sink((a.div_uint(&d), a.rem_uint(&d), a.div_floor_uint(&d), a / d, &a / &d, a % d, Wrapping(a) / d));
+    }
+    op!(v, "int-div", nm("div_uint+rem_uint+div_floor_uint+operators(secret divisor)"), [Arg::Signed(N), Arg::NonZero(N)], [], div_uint_more::<N>);
+
+    #[inline(never)]
+    fn bits<const N: usize>(i: &Inputs) {
+        let (a, b) = (si::<N>(&i.s[0]), si::<N>(&i.s[1]));
+        sink((a.bitand(&b), a.bitor(&b), a.bitxor(&b), a.not(), a.bitand_limb(Limb(i.s[1][0]))));
+        sink((a.wrapping_and(&b), a.checked_and(&b), a.wrapping_or(&b), a.checked_or(&b), a.wrapping_xor(&b), a.checked_xor(&b)));
+        sink((a & b, &a | &b, a ^ &b, !a, Wrapping(a) & Wrapping(b), Wrapping(a) | Wrapping(b), Wrapping(a) ^ Wrapping(b), !Wrapping(a)));
+    }
+    op!(v, "int-bits", nm("and+or+xor+not"), [Arg::Signed(N), Arg::Signed(N)], [], bits::<N>);
+
+    #[inline(never)]
+    fn pred<const N: usize>(i: &Inputs) {
+        let a = si::<N>(&i.s[0]);
+        sink((a.is_min(), a.is_max(), a.to_nz(), a.to_odd(), *a.as_uint(), a.abs_sign()));
+        sink(Int::<N>::new_from_abs_sign(u::<N>(&i.s[1]), choice(i.s[2][0])));
+        sink(Zero::is_zero(&a));
+    }
+    op!(v, "int-pred", nm("is_min+is_max+to_nz+to_odd+new_from_abs_sign"), [Arg::Signed(N), Arg::Any(N), Arg::Bit], [], pred::<N>);
+
+    #[inline(never)]
+    fn wrappers<const N: usize>(i: &Inputs) {
+        let (a, b) = (si::<N>(&i.s[0]), si::<N>(&i.s[1]));
+        let (wa, wb) = (Wrapping(a), Wrapping(b));
+        let mut w = wa + wb;
+        w += wb;
+        w -= &wa;
+        sink((w, wa - wb));
+        let (ca, cb) = (Checked::new(a), Checked::new(b));
+        let mut c = ca + cb;
+        c += cb;
+        c -= &ca;
+        c *= cb;
+        sink((c, ca - cb, ca * cb));
+    }
+    op!(v, "int-wrappers", nm("Wrapping+Checked add/sub/mul"), [Arg::Signed(N), Arg::Signed(N)], [], wrappers::<N>);
+
+    #[inline(never)]
+    fn resize_up<const N: usize>(i: &Inputs) {
+        let a = si::<N>(&i.s[0]);
+        sink((a.resize::<9>(), a.resize::<1>()));
+    }
+    op!(v, "int-resize", nm("resize(sign extension / truncation)"), [Arg::Signed(N)], [], resize_up::<N>);
+}
+
+macro_rules! int_widening_ops {
+    ($v:ident; $(($n:literal, $w:literal)),*) => { $( {
+        const N: usize = $n;
+        const W: usize = $w;
+        #[inline(never)]
+        fn widening(i: &Inputs) {
+            let (a, b) = (si::<N>(&i.s[0]), si::<N>(&i.s[1]));
+            let wm: Int<W> = a.widening_mul(&b);
+            let ws: Uint<W> = a.widening_square();
+            let wu: Int<W> = a.widening_mul_uint(&u::<N>(&i.s[1]));
+            sink((wm, ws, wu));
+            let (x, y) = (u::<N>(&i.s[0]), u::<N>(&i.s[1]));
+            let um: Uint<W> = x.widening_mul(&y);
+            let us: Uint<W> = x.widening_square();
+            sink((um, us));
+            let cat: Uint<W> = crypto_bigint::Concat::concat(&x, &y);
+            let (lo, hi): (Uint<N>, Uint<N>) = crypto_bigint::Split::split(&cat);
+            sink((cat, lo, hi));
+        }
+        op!($v, "widening", format!("int+uint/widening_mul+widening_square+widening_mul_uint/{}", 64 * N), [Arg::Signed(N), Arg::Signed(N)], [], widening);
+        #[inline(never)]
+        fn int_gcd(i: &Inputs) {
+            let (a, b) = (si::<N>(&i.s[0]), si::<N>(&i.s[1]));
+            sink((Gcd::gcd(&a, &b), Gcd::gcd(&a, &u::<N>(&i.s[1])), Gcd::gcd(&u::<N>(&i.s[0]), &b)));
+        }
+        op!($v, "safegcd", format!("int/gcd(Int, Int)+(Int, Uint)+(Uint, Int)/I{}", 64 * N), [Arg::Signed(N), Arg::Signed(N)], [], int_gcd);
+        #[inline(never)]
+        fn int_inv(i: &Inputs) {
+            let m = Odd::new(u::<N>(&i.p[0])).unwrap();
+            sink(si::<N>(&i.s[0]).inv_odd_mod(&m));
+        }
+        op!($v, "safegcd", format!("int/inv_odd_mod(public modulus)/I{}", 64 * N), [Arg::Signed(N)], [Arg::OddGe3(N)], int_inv);
+    } )* };
+}
+
 // ------------------------------------------------------------------------------------------------
 // BoxedUint of n limbs
 
@@ -952,6 +1098,124 @@ fn boxed_ops(v: &mut Vec<Op>, n: usize, heavy: bool) {
     }
 }
 
+/// More of the boxed surface: in-place forms, predicates, special-modulus arithmetic, wrappers, the
+/// Monty multiplier object and operator forms of BoxedMontyForm.
+fn boxed_ops_more(v: &mut Vec<Op>, n: usize) {
+    use crypto_bigint::{Monty, MontyMultiplier, Square, SquareAssign};
+    let b = 64 * n as u64;
+    let nm = |s: &str| format!("boxed/{s}/{n} limbs");
+
+    #[inline(never)]
+    fn assign(i: &Inputs) {
+        let (mut a, b) = (bx(&i.s[0]), bx(&i.s[1]));
+        let c = Limb(i.s[2][0] & 1);
+        sink(a.adc_assign(&b, c));
+        sink(a.sbb_assign(&b, Limb(0u64.wrapping_sub(c.0))));
+        let mut w = Wrapping(a.clone());
+        w += Wrapping(b.clone());
+        w -= &Wrapping(b.clone());
+        w *= &Wrapping(b.clone());
+        sink((w.clone() + Wrapping(b.clone()), &w - &Wrapping(b.clone()), &w * &Wrapping(b.clone()), -w));
+    }
+    op!(v, "boxed-addsub", nm("adc_assign+sbb_assign+Wrapping forms"), [Arg::Any(n), Arg::Any(n), Arg::Bit], [], assign);
+
+    #[inline(never)]
+    fn pred(i: &Inputs) {
+        let (a, b) = (bx(&i.s[0]), bx(&i.s[1]));
+        sink((a.is_nonzero(), a.is_one(), a.to_odd().is_some(), NonZero::new(a.clone()).is_some(), Integer::is_even(&a)));
+        sink((a.wrapping_and(&b), a.checked_and(&b), a.wrapping_or(&b), a.checked_or(&b), a.wrapping_xor(&b), a.checked_xor(&b), a.bitand_limb(Limb(i.s[1][0]))));
+    }
+    op!(v, "boxed-bits", nm("predicates+named bit ops"), [Arg::Any(n), Arg::Any(n)], [], pred);
+
+    #[inline(never)]
+    fn shift_assign(i: &Inputs) {
+        let mut a = bx(&i.s[0]);
+        let s = i.s[1][0] as u32;
+        sink(a.overflowing_shl_assign(s));
+        sink(a.overflowing_shr_assign(s));
+        sink(a);
+    }
+    op!(v, "boxed-shift", nm("overflowing_sh*_assign(secret shift incl. >= BITS)"), [Arg::Any(n), Arg::UpTo(2 * b + 1)], [], shift_assign);
+
+    #[inline(never)]
+    fn shift_inrange(i: &Inputs) {
+        let mut a = bx(&i.s[0]);
+        let s = i.s[1][0] as u32;
+        sink((a.shl(s), a.shr(s), &a << s, &a >> s));
+        a.shl_assign(s);
+        a.shr_assign(s);
+        sink(a);
+    }
+    op!(v, "boxed-shift", nm("shl+shr+operators+assign(secret shift < BITS)"), [Arg::Any(n), Arg::UpTo(b - 1)], [], shift_inrange);
+
+    #[inline(never)]
+    fn special(i: &Inputs) {
+        // modulus 2^BITS - c with c = p[0]; operands below the modulus
+        let (a, b) = (bx(&i.s[0]), bx(&i.s[1]));
+        let c = Limb(i.p[0][0]);
+        sink((a.sub_mod_special(&b, c), a.neg_mod_special(c), a.mul_mod_special(&b, c)));
+    }
+    op!(v, "boxed-mod", nm("sub/neg/mul_mod_special(public c)"), [Arg::TwoPowMinus(n, Ref::P(0)), Arg::TwoPowMinus(n, Ref::P(0))], [Arg::WordNonZero], special);
+
+    #[inline(never)]
+    fn mod_assign(i: &Inputs) {
+        let p = bx(&i.s[0]);
+        let (mut a, b) = (bx(&i.s[1]), bx(&i.s[2]));
+        a.add_mod_assign(&b, &p);
+        sink(a);
+    }
+    op!(v, "boxed-mod", nm("add_mod_assign(secret modulus)"), [Arg::NonZero(n), Arg::Below(n, Ref::S(0)), Arg::Below(n, Ref::S(0))], [], mod_assign);
+
+    #[inline(never)]
+    fn sqrt_more(i: &Inputs) {
+        let a = bx(&i.s[0]);
+        sink((a.wrapping_sqrt(), a.checked_sqrt()));
+    }
+    op!(v, "boxed-sqrt", nm("wrapping_sqrt+checked_sqrt"), [Arg::Any(n)], [], sqrt_more);
+
+    #[inline(never)]
+    fn resize(i: &Inputs) {
+        let a = bx(&i.s[0]);
+        let bits = a.bits_precision();
+        sink((a.widen(bits + 64), a.widen(bits + 65), a.shorten(bits - 63), a.shorten(bits)));
+    }
+    op!(v, "boxed-resize", nm("widen+shorten(public precision)"), [Arg::Any(n)], [], resize);
+
+    #[inline(never)]
+    fn div_more(i: &Inputs) {
+        let a = bx(&i.s[0]);
+        let d = NonZero::new(bx(&i.s[1])).unwrap();
+        sink((&a / &d, &a % &d, Wrapping(a.clone()) / &d));
+        let l = NonZero::new(Limb(i.s[2][0])).unwrap();
+        let r = Reciprocal::new(l);
+        sink((a.div_rem_limb_with_reciprocal(&r), a.rem_limb_with_reciprocal(&r)));
+    }
+    op!(v, "boxed-div", nm("operators+reciprocal forms(secret divisor)"), [Arg::Any(n), Arg::NonZero(n), Arg::WordNonZero], [], div_more);
+
+    #[inline(never)]
+    fn monty_more(i: &Inputs) {
+        let params = BoxedMontyParams::new_vartime(Odd::new(bx(&i.p[0])).unwrap());
+        let a = BoxedMontyForm::from_montgomery(bx(&i.s[0]), params.clone());
+        let b = BoxedMontyForm::from_montgomery(bx(&i.s[1]), params.clone());
+        sink((a.is_zero(), a.is_nonzero()));
+        sink((&a + &b, &a - &b, &a * &b, -&a, Square::square(&a)));
+        let mut x = a.clone();
+        x += &b;
+        x -= &b;
+        x *= &b;
+        x.div_by_2_assign();
+        SquareAssign::square_assign(&mut x);
+        sink(x);
+        let mut m = <BoxedMontyForm as Monty>::Multiplier::from(&params);
+        let mut y = a.clone();
+        m.mul_assign(&mut y, &b);
+        m.square_assign(&mut y);
+        sink(y);
+        sink((a.to_montgomery(), Monty::as_montgomery(&a).clone(), Monty::div_by_2(&a), Monty::double(&a)));
+    }
+    op!(v, "monty-arith", format!("boxed-monty/operators+assign+multiplier+predicates/{n} limbs"), [Arg::Below(n, Ref::P(0)), Arg::Below(n, Ref::P(0))], [Arg::OddGe3(n)], monty_more);
+}
+
 /// BoxedUint multiplication with operands of different lengths (Karatsuba trailing-limb paths)
 fn boxed_mul_mixed(v: &mut Vec<Op>, la: usize, lb: usize) {
     #[inline(never)]
@@ -982,11 +1246,23 @@ pub fn ops(thorough: bool) -> Vec<Op> {
     int_ops::<1>(&mut v);
     int_ops::<2>(&mut v);
     int_ops::<4>(&mut v);
+    uint_ops_extra::<1>(&mut v);
+    uint_ops_extra::<2>(&mut v);
+    uint_ops_extra::<3>(&mut v);
+    uint_ops_extra::<4>(&mut v);
+    uint_ops_extra::<8>(&mut v);
+    int_ops_more::<1>(&mut v);
+    int_ops_more::<2>(&mut v);
+    int_ops_more::<4>(&mut v);
+    int_widening_ops!(v; (1, 2), (2, 4), (4, 8));
     for n in [1usize, 2, 4] {
         boxed_ops(&mut v, n, true);
     }
     boxed_ops(&mut v, 8, false);
     boxed_ops(&mut v, 33, false);
+    for n in [1usize, 2, 3, 4, 8] {
+        boxed_ops_more(&mut v, n);
+    }
     for (la, lb) in [(3usize, 5usize), (5, 3), (35, 33), (33, 35), (36, 33), (34, 32), (64, 33)] {
         boxed_mul_mixed(&mut v, la, lb);
     }
@@ -1001,7 +1277,13 @@ pub fn ops(thorough: bool) -> Vec<Op> {
         uint_alias_ops!(v; 8, 16);
         uint_mulmod_ops!(v; 8, 16);
         int_ops::<8>(&mut v);
+        int_ops::<3>(&mut v);
+        int_ops_more::<3>(&mut v);
+        int_ops_more::<8>(&mut v);
+        int_widening_ops!(v; (8, 16));
         boxed_ops(&mut v, 16, true);
+        boxed_ops_more(&mut v, 16);
+        boxed_ops_more(&mut v, 33);
         boxed_ops(&mut v, 70, false);
     }
     v
